@@ -40,6 +40,19 @@ impl TypeRegistry {
     }
 
     pub(crate) fn unresolved(&self) -> Vec<ItemPath> {
+        #[cfg(pyxis_verif)]
+        if let Some(ordered) = crate::semantic::verif::reorder(|| {
+            let mut paths: Vec<ItemPath> = self
+                .types
+                .iter()
+                .filter(|(_, t)| !t.is_predefined() && !t.is_resolved())
+                .map(|(k, _)| k.clone())
+                .collect();
+            paths.sort();
+            paths
+        }) {
+            return ordered;
+        }
         self.types
             .iter()
             .filter(|(_, t)| !t.is_predefined() && !t.is_resolved())
